@@ -417,7 +417,7 @@ func rewritePart(r *ev.Run, env *sess.PGEnv, thorough bool) {
 					continue
 				}
 				row := rows[0]
-				if string(row[0]) != "1" || !bytes.Equal(row[1], pv) {
+				if string(row[0]) != "1" || !bytes.Equal(row[1], pv) || (row[1] == nil) != (pv == nil) {
 					viol(c0, "insert/"+how+"/untransformed-field-changed", "untransformed fields changed: id=%q plain=%q", row[0], row[1])
 				}
 				if (row[2] == nil) != (cv == nil) || (row[3] == nil) != (dv == nil) {
